@@ -51,6 +51,18 @@ def ev(n, env):
                     return 1 if eq else 0
                 return 0 if eq else 1
             return UNK
+        if _TU is not None and f in _TU.functions and _DEPTH[0] < 3 and _TU.in_main_file(_TU.functions[f]):
+            # small pure helper of the same file (e.g. `return value != NULL && strcmp (value, "1") == 0;`): evaluate its body
+            g = _TU.functions[f]
+            params = [p_['name'] for p_ in _TU.params(g)]
+            if len(params) == len(args):
+                env2 = dict((p_, ev(a, env)) for p_, a in zip(params, args))
+                _DEPTH[0] += 1
+                try:
+                    r_ = _ev_body(C.kids(_TU.body(g)), env2)
+                    return UNK if r_ is _NORET else r_
+                finally:
+                    _DEPTH[0] -= 1
         if f in ('atoi', 'strtol', 'g_ascii_strtoll', 'parse_value') and args:
             a = ev(args[0], env)
             if isinstance(a, str) and a.lstrip('-').isdigit():
@@ -96,6 +108,39 @@ def ev(n, env):
             return UNK
         return ev(C.kids(n)[1] if truth(c) else C.kids(n)[2], env)
     return UNK
+
+
+_TU = None
+_DEPTH = [0]
+_NORET = object()
+
+
+def _ev_body(stmts, env):
+    """value returned by a straight-line / if-return helper body; UNK when anything else is met"""
+    for st in stmts:
+        k = st.get('kind')
+        if k == 'ReturnStmt':
+            return ev(C.kids(st)[0], env) if C.kids(st) else UNK
+        if k == 'CompoundStmt':
+            r = _ev_body(C.kids(st), env)
+            if r is not _NORET:
+                return r
+        elif k == 'IfStmt':
+            ch = C.kids(st)
+            c = ev(ch[0], env)
+            if c == UNK:
+                return UNK
+            br = ch[1] if truth(c) else (ch[2] if len(ch) > 2 else None)
+            if br is not None:
+                r = _ev_body([br], env)
+                if r is not _NORET:
+                    return r
+        elif k in ('NullStmt', 'DeclStmt'):
+            if k == 'DeclStmt' and any(C.kids(d) for d in C.kids(st)):
+                return UNK
+        else:
+            return UNK
+    return _NORET
 
 
 def _isnull(n):
@@ -147,6 +192,8 @@ def attr_vars(tu, f):
 
 
 def decode_tables(tu):
+    global _TU
+    _TU = tu
     rows = []
     for fname, f in sorted(tu.functions.items()):
         if not tu.in_main_file(f):
